@@ -147,3 +147,15 @@ func specRel(opts []layers.TCPOption, a int, o int, isn uint32) uint32 {
 //@ safety C19
 //@ ensures[C19.sack.table]  ret1 == nil ==> ret0 != nil && fresh(ret0) && len(ret0.sendTimes) == int(params.ParallelParams.MaxTTL)+1 && ret0.state == nil && ret0.params == params && ret0.localAddr == localAddr
 //@ ensures[C19.sack.zero]   ret1 == nil ==> forall(k, 0, len(ret0.sendTimes), ret0.sendTimes[k] == 0)
+
+//@ func (*sackDriver).ReceiveProbe
+//@ safety C09
+//@ requires[pre.nonnil]     s != nil && s.source != nil && s.parser != nil && s.parser.parserv4 != nil && s.parser.parserv6 != nil
+//@ requires[pre.len]        s.state != nil ==> len(s.sendTimes) == int(s.params.ParallelParams.MaxTTL)+1
+//@ requires[pre.past]       forall(k, 0, len(s.sendTimes), s.sendTimes[k] <= now())
+//@ ensures[C09.recv.xor]    (ret0 == nil) != (ret1 == nil)
+//@ ensures[C09+C20.recv.class]  ret1 != nil && !chain(ret1, *common.ReceiveProbeNoPktError) && !chain(ret1, *common.BadPacketError) && !chain(ret1, *NotSupportedError) ==> ioFail || s.state == nil
+//@ ensures[C09.recv.io]     ioFail == old(ioFail) || ret1 != nil
+//@ ensures[C01.recv.fresh]  ret0 != nil ==> fresh(ret0)
+//@ ensures[C09.recv.state]  forall(k, 0, len(s.sendTimes), s.sendTimes[k] == old(s.sendTimes[k]))
+//@ modifies packets.FrameParser.IP4, packets.FrameParser.IP6, packets.FrameParser.TCP, packets.FrameParser.ICMP4, packets.FrameParser.ICMP6, packets.FrameParser.Payload, packets.FrameParser.Layers, gopacket.DecodingLayerParser, elems(s.buffer), ghost clock, ghost ioFail
